@@ -1,12 +1,36 @@
 CHECK = {
     "level": "model_checking",
-    "technique": "bounded-exhaustive exploration of register_block_read and register_foreach_in over a small-scope table family x every (address,length) window x every callback stop script, against a flat address-space reference model",
-    "rule": "a case is (table, operation, window): block read compared word by word with the flat model, or iteration run under every script (never stop; k-th call returns -1/+1) and compared with the list of overlapping registers; every case is non-trivial",
-    "assumptions": ["tables from the small-scope family of harness/regfam.h (<= 3 areas, <= 5 registers, addresses 0..9)",
-                    "ranges that wrap around the 32-bit address space are outside the statement and not generated"],
+    "technique": "bounded-exhaustive exploration of register_block_read and register_foreach_in against a flat address-space reference model over "
+                 "(1) a small-scope table family x every (address,length) window x every callback stop script, block reads also under every "
+                 "read-callback fault position (environment script: the k-th read callback of the call answers IO_ERROR); "
+                 "(2) tables of three/four directly adjacent areas of every kind combination (reads crossing up to four chunks, fault at every chunk); "
+                 "(3) re-initialisation histories: every ordered pair (thorough: also every triple) of register lists from a small family initialised "
+                 "one after the other on the same area array, then every window; "
+                 "(4) a structured boundary family of large tables (65533..65544 registers, handles/addresses/lengths straddling 2^16)",
+    "rule": "a case is (table or history, operation, window[, fault position]): block read compared word by word with the flat model on an exact-size "
+            "heap buffer (under a fired read fault only memory safety, storage purity and 'a reported success holds the stored words' are demanded), "
+            "or iteration run under every script (never stop; k-th call returns -1/+1; large tables: first/last call) and compared with the list of "
+            "overlapping registers; every case is non-trivial except those of a history / large table whose (re-)initialisation is refused",
+    "assumptions": ["tables from the small-scope family of harness/regfam.h (<= 3 areas, <= 5 registers, addresses 0..9), plus 320 tables of 3/4 adjacent areas "
+                    "(each area callback-backed / memory-backed / not flagged readable / not flagged readable and without read function), plus a reduced family "
+                    "at address shifts 0x7ffffffc and 0xfffffff5 (straddling 2^31, ending at 0xfffffffe)",
+                    "callback results: -1/+1 at every position, +-2, +-256, +-65536, INT_MIN, INT_MAX at the first and last overlapping register",
+                    "ranges that wrap around the 32-bit address space are outside the statement and not generated",
+                    "re-initialisation histories keep the area array and replace the register list (unconstrained 16/32-bit registers; per area: none, "
+                    "first word, every word, last word, 32-bit at the base); quick: pairs on layouts B, D, E with the three-filling menu",
+                    "large tables: three shapes, areas memory-backed or callback-backed with computed words; windows start around address/handle 2^16 and the area edges",
+                    "areas are either memory-backed through reg_mem_read/reg_mem_write or callback-backed with mem == NULL (the two kinds the public macros build); "
+                    "a hand-built area with a custom read function AND a non-NULL mem pointer whose answers differ from mem is not generated: the statement does "
+                    "not say which of the two is 'the word currently stored there' (register_mcopy and register_init treat mem != NULL as memory-backed); "
+                    "building the harness with cflags -DC03_HYBRID_AREAS adds 19 such tables with the read function's answer as the model"],
     "harnesses": [{
         "name": "c03_blockread", "src": "harness/c03_blockread.c", "shape": "espace", "opt": "-O2",
-        "lib": ["src/registers/core.c"], "min_outcomes": 6,
-        "require_outcomes": {"any": ["read-ok", "read-empty", "read-unmapped", "read-ok-with-unreadable", "iter-none", "iter-some", "iter-all"]},
+        "lib": ["src/registers/core.c"], "min_outcomes": 17,
+        "require_outcomes": {"any": ["read-ok", "read-empty", "read-unmapped", "read-ok-with-unreadable", "read-ok-no-read-function", "iter-none", "iter-some", "iter-all",
+                                     "fault-first-chunk", "fault-later-chunk",
+                                     "reinit-read-ok", "reinit-read-unmapped", "reinit-iter-none", "reinit-iter-some", "reinit-iter-all",
+                                     "reinit-iter-from-emptied-area",
+                                     "big-read-ok", "big-read-ok-64k-words", "big-read-unmapped",
+                                     "big-iter-none", "big-iter-below-64k", "big-iter-across-64k", "big-iter-first-handle-from-64k"]},
     }],
 }
